@@ -44,13 +44,15 @@ class Checker(object):
         self.rule_desc[rid] = (analysis, desc)
         self.rule_min[rid] = min_instances
 
-    def ob(self, rule, key, ok, site, func="", detail="", nontrivial=True, path=None):
+    def ob(self, rule, key, ok, site, func="", detail="", nontrivial=True, path=None, structural=False):
+        """structural: the obligation is about *what* the function contains or calls, not about its paths -- it stays decidable when
+        the function was flattened over a helper whose result is branched on"""
         if rule not in self.rule_desc:
             raise AnalysisBroken("internal: rule %s not declared" % rule)
         fn = func.name if hasattr(func, "name") else func
         if hasattr(func, "id"):
             self.funcs_analysed.add(func.id)
-        if not ok and getattr(func, "unmodelled", None):
+        if not ok and not structural and getattr(func, "unmodelled", None):
             # the function was flattened over a helper whose result it branches on: a path rule cannot tell feasible from infeasible
             # combinations there, so a failed obligation is "cannot decide" (exit 2), not a violation
             raise AnalysisBroken("%s in %s: %s" % (rule, fn, func.unmodelled[0]))
@@ -75,8 +77,12 @@ class Checker(object):
         program and take over the obligations of its rules `rules` (optionally only keys accepted by key_pred) under this property's
         rule id `as_rule`, so that a change that breaks them is reported by this property's check too."""
         import importlib
+        if getattr(self, "_borrowed_run", False):
+            # this checker is itself the lender of a borrow: only its own rules are wanted (no chains, no cycles)
+            return
         mod = importlib.import_module("pv.rules.%s" % other_prop.lower())
         sub = Checker(other_prop, self.prog, self.tier)
+        sub._borrowed_run = True
         try:
             mod.run(sub)
         except AnalysisBroken as e:
